@@ -22,7 +22,11 @@ def case_timeout():
     """Per-case wall-clock guard in seconds (a hit means 'inconclusive', never a violation). The
     runner re-runs an inconclusive case once, alone, with VERIF_CASE_S raised (transient load)."""
     import os
-    return int(os.environ.get("VERIF_CASE_S", CASE_TIMEOUT_S))
+    t = int(os.environ.get("VERIF_CASE_S", CASE_TIMEOUT_S))
+    dl = os.environ.get("VERIF_DEADLINE")       # set for a re-run: all cases of the re-run item share it
+    if dl:
+        t = max(1, min(t, int(float(dl) - time.time())))
+    return t
 
 
 class CaseTimeout(Exception):
